@@ -1,3 +1,5 @@
 from .core import (Explorer, Ctx, cur, fork, SymBool, Infeasible, Cut, Hang, HarnessError, Inconclusive)
 from .symstr import (SymStr, RegexShim, sym_chars, concretize, leak_scan, unicode_scalar, in_ranges, SENTINEL)
 from .symnum import (SymInt, SymReal, SymFloat, sym_float, sym_int, instantiate, render_token, q, TOKEN_L, TOKEN_R)
+
+from .symre import SymRegex, SymMatch, RE_PROXY
